@@ -19,7 +19,7 @@ def run(ctx):
         for src, ast, root, stream in progs:
             st = rnd.choice(progsuite.STORES) if stream == 'random' and ctx.tier == 'quick' else None
             for s in ([st] if st else progsuite.STORES):
-                meta[progsuite.prog_case(cases, s, src, rnd.choice(proggen.INPUTS), rnd.choice(progsuite.HOSTS), ast)] = stream
+                meta[progsuite.prog_case(cases, s, src, rnd.choice(proggen.LOOP_INPUTS if stream == 'loops' else proggen.INPUTS), rnd.choice(progsuite.HOSTS), ast)] = stream
         # reapply loops with iteration counts 0..N: constant depth however often they iterate
         nmax = 12 if ctx.tier == 'quick' else 50
         for n in range(0, nmax + 1):
